@@ -13,7 +13,7 @@ import (
 // E4 loops: every loop in the reader/writer closures has a progress argument (DESIGN.md §3 E4).
 
 var progressPrimitives = map[string]bool{
-	"(*bufio.Scanner).Scan": true, "(*golang.org/x/net/html.Tokenizer).Next": true,
+	"(*bufio.Scanner).Scan": true, "(*golang.org/x/net/html.Tokenizer).Next": true, "(*golang.org/x/net/html.Tokenizer).TagAttr": true, // one attribute of the current tag per call, false after the last
 	"(*encoding/xml.Decoder).Token": true, "(*encoding/xml.Decoder).RawToken": true, "invoke (encoding/xml.TokenReader).Token": true,
 	"(*github.com/asticode/go-astits.Demuxer).NextData": true, "(*github.com/asticode/go-astits.Demuxer).NextPacket": true,
 	"io.ReadFull": true, "io.ReadAtLeast": true, "invoke (io.Reader).Read": true,
